@@ -74,6 +74,19 @@ def jobs(tier, seed):
         Ts = list(range(0, min(pend, n) + 1, 1 if tier == 'thorough' else (5 if b == 'full' else 17))) + list(range(pend, n + 1, 16))
         for chunk in range(0, len(Ts), 40):
             out.append({'entry': 'h_load', 'harness': 'h_load.cpp', 'name': 'truncate', 'base': b, 'lengths': Ts[chunk:chunk + 40], 'cfg': {'gens': 0, 'dump': 0, 'obsfiles': 0}})
+        # (e) two damages at once among the parameters the loader itself consumes: one of them emptied (its dimension count 0 -> the size of its
+        # value, so that the value bytes are read as extents; one of them is 0, the parameter then holds no value and the record keeps its length)
+        # while every byte of the first value of another one is free
+        fd = dict(fl)
+        mand = [m for m in ('POINT:USED', 'POINT:RATE', 'POINT:FRAMES', 'POINT:SCALE', 'ANALOG:USED', 'ANALOG:RATE', 'ANALOG:GEN_SCALE') if 'param[%s].ndims' % m in fd and 'param[%s].value0' % m in fd]
+        if tier == 'thorough' or b == 'full':
+            for a_ in mand:
+                for b_ in mand:
+                    if a_ == b_: continue
+                    nd = fd['param[%s].ndims' % a_][0]; va = fd['param[%s].value0' % a_]
+                    if not any(is_c(cells[o]) and cells[o] == 0 for o in va): continue
+                    out.append({'entry': 'h_load', 'harness': 'h_load.cpp', 'name': 'field', 'base': b, 'field': 'param[%s].emptied+param[%s].value0' % (a_, b_), 'fixed': [(nd, len(va))],
+                                'offs': fd['param[%s].value0' % b_], 'cfg': {'gens': 0, 'dump': 0, 'obsfiles': 0}})
         if tier == 'thorough':
             # pairs: a length field x an offset/count field
             lens = [f for f in fl if f[0].endswith('name_len') or f[0].endswith('desc_len') or f[0].endswith('ndims')][:12]
@@ -142,7 +155,8 @@ def run_job(engine, job):
             if cut: res['inconclusive'].append('fully symbolic %d-byte file: exploration cut' % n)
             res['sample'] = {'mutation': 'fully symbolic file', 'bytes': n, 'paths': np}
         else:
-            base = base_file(job['base']); offs = job['offs']
+            base = list(base_file(job['base'])); offs = job['offs']
+            for o, v in job.get('fixed', []): base[o] = v          # a second, concrete damage applied first
             mode = 'boundary' if job.get('boundary_only') else 'free'
             if mode == 'free':
                 cells = list(base); vs = []
